@@ -399,13 +399,28 @@ def solve_smt(obs, timeout_s=20, both=False, jobs=None, seed=0):
              for i in pending if results[i].status == "unknown"]
     for idx, solver, status, dt, model in run_tasks(tasks, jobs):
         record(idx, solver, status, dt)
-    open_ = [i for i in pending if results[i].status == "unknown" or both]
+    open_ = [i for i in pending if results[i].status == "unknown"]
+    decided = [i for i in pending if results[i].status != "unknown"]
     tasks = []
     for i in open_:
         for sv in (("cvc5", "cvc5-fmf", "z3") if obs[i]["strs"] else ("z3", "cvc5")):
             tasks.append((i, obs[i]["smt2"], sv, timeout_s * 1000, False, seed))
-    for idx, solver, status, dt, model in run_tasks(tasks, jobs, cancel_siblings=not both):
+    for idx, solver, status, dt, model in run_tasks(tasks, jobs, cancel_siblings=True):
         record(idx, solver, status, dt)
+    if both:
+        # second opinion on every obligation that is already decided: the other solvers get a bounded budget; an answer
+        # that contradicts the first one is a 'disagree' (checker fault), no answer in the budget is not
+        cross = min(timeout_s, 20) * 1000
+        tasks = []
+        for i in decided + open_:
+            if results[i].status not in ("sat", "unsat"):
+                continue
+            used = set(l[0] for l in results[i].log)
+            for sv in (("cvc5", "z3") if obs[i]["strs"] else ("z3", "cvc5")):
+                if sv not in used and not (sv == "z3" and "z3-inproc" in used):
+                    tasks.append((i, obs[i]["smt2"], sv, cross, False, seed))
+        for idx, solver, status, dt, model in run_tasks(tasks, jobs, cancel_siblings=False):
+            record(idx, solver, status, dt)
     need = [i for i in pending if results[i].status in ("sat", "unknown")]
     mt = min(timeout_s, 15) * 1000
     tasks = []
